@@ -57,9 +57,9 @@ Lemma trans_compose : forall st s s1 s2 ok l1 l2,
   trans_l ok s s2 (l2 ++ l1).
 Proof.
   intros st s s1 s2 ok l1 l2 A TA B TB x. specialize (TA x). specialize (TB x).
-  rewrite (fr_epoch _ _ _ _ _ A) in TB. rewrite creates_app, in_app_iff.
+  rewrite (fr_epoch _ _ _ _ _ A) in TB. unfold key_trans in *. rewrite creates_app, in_app_iff.
   assert (Hdone : done s1 x -> get (st_mem s2) x = get (st_mem s1) x /\ ~ In x (creates l2)).
-  { intros D. split; [exact (fr_frozen _ _ _ _ _ B x D)|]. intros C. now apply (fr_fresh _ _ _ _ _ B x C). }
+  { intros D. split; [exact (fr_frozen _ _ _ _ _ B x D)|]. intros C. destruct (fr_fresh _ _ _ _ _ B x C) as [P _]. now apply P. }
   destruct TA as [[N1 [E1|[E1|[E1 _]]]]|[C1 [R1|[E1 _]]]]; try discriminate.
   - rewrite E1 in TB. destruct TB as [[N2 T]|[C2 T]]; [left | right]; (split; [tauto | exact T]).
   - assert (D : done s1 x) by (unfold done; rewrite E1, (fr_epoch _ _ _ _ _ A); reflexivity).
@@ -117,10 +117,10 @@ Proof. intros. unfold complete. cbn [set_db set_mem st_mem unflag emit st_epoch]
 Lemma task_value_snd : forall k rl a b, snd (task_value rules env F k rl a b) = obs rules env k.
 Proof. reflexivity. Qed.
 
-Lemma run_trans : forall k stack r s, ~ done s k -> ~ In k stack -> get (st_mem s) k = r ->
+Lemma run_trans : forall k stack r s, ~ done s k -> ~ In k stack -> get (st_mem s) k = r -> clean r = r ->
   trans_o s (run rules env F order ens k stack r s).
 Proof.
-  intros k stack r s Hnd Hns Hr.
+  intros k stack r s Hnd Hns Hr Hclean.
   destruct (run_cases rules env F order ens k stack r s _ eq_refl)
     as [(s4 & slots1 & slots3 & GA & GB) | (Hno & ks & GA)];
     set (o := run rules env F order ens k stack r s) in *; clearbody o.
@@ -133,7 +133,7 @@ Proof.
     destruct (run_frame_main rules env F order k stack r s s4 _ bk v Hnd Hns A s6 true [] (frame_refl _ _ _)) as [M _].
     cbn [app] in M.
     eapply trans_o_trans; [exact M | | eapply frame_o_weaken_stack; exact B | exact TB].
-    intros x. rewrite !creates_app, run_pre_creates. cbn [creates app].
+    intros x. cbn [creates]. rewrite creates_app, run_pre_creates.
     assert (Hep : st_epoch s4 = st_epoch s) by (rewrite (fr_epoch _ _ _ _ _ A); apply run_pre_epoch).
     destruct (N.eq_dec x k) as [->|Hx].
     + right. split; [apply in_app_iff; right; now left|]. left.
@@ -151,15 +151,130 @@ Proof.
     intros x. rewrite creates_app, run_pre_creates. specialize (TA x). rewrite run_pre_epoch, run_pre_mem in TA.
     destruct (N.eq_dec x k) as [->|Hx].
     + right. split; [apply in_app_iff; right; now left|]. right. split; [reflexivity|].
-      rewrite (fr_stack _ _ _ _ _ A k) by now left. rewrite run_pre_mem.
-      (* k's stored result is r; it is already clean only in the callers' use; state it as is *)
-      destruct TA as [[N1 T]|[C1 _]].
-      * exact (False_ind _ (False_ind False I)).
-      * exact (False_ind _ (False_ind False I)).
+      rewrite (fr_stack _ _ _ _ _ A k) by now left. rewrite run_pre_mem, Hr. now rewrite Hclean.
     + assert (Q : In x (creates (new_log (run_pre rules k r s) s') ++ [k]) <-> In x (creates (new_log (run_pre rules k r s) s'))).
       { rewrite in_app_iff. cbn [In]. split; [intros [Q|[Q|[]]]; [exact Q | now subst] | tauto]. }
       unfold key_trans in *. rewrite Q. exact TA.
 Qed.
 
+Lemma scan_trans : forall k stack r ds sA s lacc, ~ done sA k -> ~ In k stack ->
+  get (st_mem sA) k = r -> clean r = r ->
+  frame_st (k :: stack) sA s true lacc -> trans_l true sA s lacc ->
+  trans_o sA (scan rules env F order ens k stack r ds s).
+Proof.
+  intros k stack r ds. induction ds as [|d ds IH]; intros sA s lacc HndA Hns Hr Hclean A TA; cbn [scan].
+  - cbn [trans_o]. set (r' := mkRes _ _ _ _ _). 
+    rewrite (new_log_intro sA (set_mem s k r') lacc) by (cbn [set_mem st_log]; exact (fr_log _ _ _ _ _ A)).
+    intros x. specialize (TA x). destruct (N.eq_dec x k) as [->|Hx].
+    + cbn [set_mem st_mem]. rewrite get_update_same. left. split.
+      * intros C. destruct (fr_fresh _ _ _ _ _ A k C) as [_ Q]. apply Q. now left.
+      * right; left. rewrite Hr. unfold r', validated. rewrite (fr_epoch _ _ _ _ _ A).
+        f_equal. symmetry. exact (f_equal res_deps Hclean).
+    + cbn [set_mem st_mem]. rewrite get_update_other by exact Hx. exact TA.
+  - destruct (Hens (k :: stack) s (d_key d)) as [B _]. pose proof (Htrans (k :: stack) s (d_key d)) as TB.
+    destruct (ens (k :: stack) s (d_key d)) as [s1|s1 p|] eqn:Ec.
+    + cbn [frame_o trans_o] in B, TB.
+      pose proof (frame_trans _ _ _ _ _ _ _ A B) as AB.
+      pose proof (trans_compose _ _ _ _ _ _ _ A TA B TB) as TAB.
+      destruct (negb (d_order d) && (res_builtAt r <? res_computedAt (get (st_mem s1) (d_key d)))).
+      * set (s2 := emit s1 (ENeed k InputRebuilt (Some (d_key d)))).
+        assert (Hnd2 : ~ done s2 k).
+        { unfold done, s2. cbn [emit st_mem st_epoch]. rewrite (fr_stack _ _ _ _ _ AB k) by now left.
+          now rewrite (fr_epoch _ _ _ _ _ AB). }
+        assert (Hr2 : get (st_mem s2) k = r).
+        { unfold s2. cbn [emit st_mem]. rewrite (fr_stack _ _ _ _ _ AB k) by now left. exact Hr. }
+        destruct (run_frame rules env F order ens Hens k stack r s2 Hnd2 Hns) as [C _].
+        pose proof (run_trans k stack r s2 Hnd2 Hns Hr2 Hclean) as TC.
+        eapply trans_o_trans; [eapply frame_weaken_stack; exact AB | exact TAB | |].
+        -- eapply frame_o_trans; [|exact C]. now apply frame_emit.
+        -- eapply trans_o_trans; [apply (frame_emit stack s1 (ENeed k InputRebuilt (Some (d_key d))) true eq_refl)
+                                 | now apply trans_same_mem | exact C | exact TC].
+      * eapply IH; eassumption.
+    + cbn [frame_o trans_o] in *.
+      rewrite (new_log_trans sA s s1 _ _ (fr_log _ _ _ _ _ A) (fr_log _ _ _ _ _ B)). eapply trans_compose; eassumption.
+    + exact I.
+Qed.
+
+Lemma key_trans_of_clean : forall ok x e r0 r' cr,
+  key_trans ok x e (clean r0) r' cr -> (ok = true -> res_builtAt r' = e) -> res_builtAt r0 <> e ->
+  key_trans ok x e r0 r' cr.
+Proof.
+  intros ok x e r0 r' cr H Hok Hne. unfold key_trans in *.
+  rewrite validated_clean, clean_idem, ran_clean in H.
+  destruct H as [[N1 [E1|[E1|[E1 E2]]]]|[C1 T]].
+  - left. split; [exact N1|]. destruct ok.
+    + exfalso. apply Hne. rewrite <- (Hok eq_refl), E1. reflexivity.
+    + right; right. now split.
+  - left. split; [exact N1|]. right; left. exact E1.
+  - left. split; [exact N1|]. right; right. now split.
+  - right. split; [exact C1 | exact T].
+Qed.
+
+Lemma ensure_body_trans : forall stack s k, trans_o s (ensure_body rules env F order ens stack s k).
+Proof.
+  intros stack s k. unfold ensure_body.
+  destruct (existsb (N.eqb k) stack) eqn:Est.
+  { cbn [trans_o]. rewrite new_log_refl. apply trans_refl. }
+  assert (Hns : ~ In k stack).
+  { intros C. assert (existsb (N.eqb k) stack = true); [|congruence].
+    apply existsb_exists. exists k. split; [exact C | apply N.eqb_refl]. }
+  destruct (N.eqb (res_builtAt (get (st_mem s) k)) (st_epoch s)) eqn:Ed.
+  { cbn [trans_o]. rewrite new_log_refl. apply trans_refl. }
+  assert (Hnd : ~ done s k) by (now apply N.eqb_neq in Ed).
+  set (r0 := get (st_mem s) k) in *.
+  fold (clean r0). set (r := clean r0). set (s1 := set_mem s k r).
+  assert (Hnd1 : ~ done s1 k) by (unfold done, s1; cbn [set_mem st_mem st_epoch]; now rewrite get_update_same).
+  assert (Hother : forall x, x <> k -> get (st_mem s1) x = get (st_mem s) x)
+    by (intros x Hx; unfold s1; cbn [set_mem st_mem]; now apply get_update_other).
+  assert (Hk1 : get (st_mem s1) k = r) by (unfold s1; cbn [set_mem st_mem]; now rewrite get_update_same).
+  assert (Hcl : clean r = r) by apply clean_idem.
+  assert (G : forall Q s2 o, st_log s2 = Q ++ st_log s -> creates Q = [] -> st_mem s2 = st_mem s1 ->
+            st_epoch s2 = st_epoch s -> frame stack s2 k o -> trans_o s2 o -> trans_o s o).
+  { intros Q s2 o L2 CQ M2 E2 [C1 C2] T.
+    assert (W : forall ok s', frame_st stack s2 s' ok (new_log s2 s') -> (ok = true -> done s' k) ->
+              trans_l ok s2 s' (new_log s2 s') -> trans_l ok s s' (new_log s s')).
+    { intros ok s' C Dk T' x. rewrite (new_log_trans s s2 s' Q _ L2 (fr_log _ _ _ _ _ C)).
+      specialize (T' x). rewrite M2, E2 in T'. unfold key_trans in *.
+      rewrite creates_app, CQ, app_nil_r.
+      destruct (N.eq_dec x k) as [->|Hx].
+      - rewrite Hk1 in T'. fold r0. apply key_trans_of_clean; [exact T' | |exact Hnd].
+        intros Hok. specialize (Dk Hok). unfold done in Dk. rewrite Dk, (fr_epoch _ _ _ _ _ C). exact E2.
+      - rewrite Hother in T' by exact Hx. exact T'. }
+    destruct o as [s'|s' p|]; cbn [frame_o trans_o] in *; [| |exact I].
+    - eapply W; [exact C1 | intros _; now apply C2 | exact T].
+    - eapply W; [exact C1 | intros; discriminate | exact T]. }
+  fold r0. 
+  assert (RUN : forall Q s2, st_log s2 = Q ++ st_log s -> creates Q = [] -> st_mem s2 = st_mem s1 ->
+            st_epoch s2 = st_epoch s -> trans_o s (run rules env F order ens k stack r s2)).
+  { intros Q s2 L2 CQ M2 E2.
+    assert (Hnd2 : ~ done s2 k) by (unfold done; rewrite M2, E2; exact Hnd1).
+    eapply G; try eassumption.
+    - now apply run_frame.
+    - apply run_trans; try assumption. now rewrite M2. }
+  change (mkRes (res_value r0) (res_sig r0) (res_computedAt r0) (res_builtAt r0) (drop_single (res_deps r0))) with r.
+  fold s1.
+  destruct (N.eqb (res_builtAt r) 0).
+  { apply (RUN [ENeed k NeverBuilt None]); reflexivity. }
+  destruct (flagged s1 k).
+  { apply (RUN [ENeed k Forced None]); reflexivity. }
+  destruct (negb (N.eqb (r_sig (rules k)) (res_sig r))).
+  { apply (RUN [ENeed k SignatureChanged None]); reflexivity. }
+  destruct (negb (valid rules env k r)).
+  { apply (RUN [ENeed k InvalidValue None; EValid k false]); reflexivity. }
+  eapply (G [EValid k true] (emit s1 (EValid k true))); try reflexivity.
+  - apply scan_frame; assumption.
+  - eapply scan_trans with (lacc := []); [exact Hnd1 | exact Hns | exact Hk1 | exact Hcl | apply frame_refl | apply trans_refl].
+Qed.
+
 End Step.
+
+Variable F : key -> N -> list value -> list N -> N -> N.
+
+Theorem ensure_trans : forall fuel stack s k, trans_o s (ensure rules env F order fuel stack s k).
+Proof.
+  induction fuel as [|f IH]; intros stack s k; cbn [ensure].
+  - exact I.
+  - apply ensure_body_trans; [apply ensure_frame | exact IH].
+Qed.
+
 End Trans.
